@@ -384,7 +384,7 @@ example : csGetters.length = 9 ∧ csDeletes.length = 8 ∧ 40 < objWriters.leng
     (mro 8 "StandardQTomographyBasedWeightedProbabilityBasedSquaredError").map (·.length) = some 4 ∧
     ((mro 8 "StandardQTomographyBasedWeightedProbabilityBasedSquaredError").bind fun full =>
       effWrites "StandardQTomographyBasedWeightedProbabilityBasedSquaredError" full 8 full "set_weight_matrices")
-      = some ["_weight_matrices", "_extend_weight_matrix"] := by decide
+      = some ["_weight_matrices", "_extend_weight_matrix", "_extend_weight_matrix"] := by decide
 
 /-- the order matters, and a cut-off closure is rejected: `cacheFollows` is false on a class the tables do not know -/
 example : lastIdx "_weight_matrices" ["_extend_weight_matrix", "_weight_matrices"] = some 1 ∧
